@@ -50,14 +50,22 @@ TABLE = {
     ("collections", "deque"): B.bi_deque,
 }
 
+from . import ext_listing
+TABLE.update(ext_listing.TABLE)          # abstract directory listing (snapshot discovery, C06)
+
 TYPING = {"Any", "Dict", "List", "Tuple", "Optional", "Callable", "Iterable", "Iterator", "Generic", "TypeVar",
           "Deque", "Hashable", "Protocol", "Literal", "TypedDict", "Union", "Set", "Sequence", "Mapping",
           "MutableMapping", "TYPE_CHECKING"}
 
 
 def external_member(ver, modname, attr):
+    full = (modname or "", attr)
+    if full in TABLE:
+        return VFunc("builtin", "%s.%s" % full, impl=TABLE[full])
+    if full == ("os", "path"):
+        return VModule("os.path", None)
     key = (modname.split(".")[0] if modname else "", attr)
-    if key in TABLE:
+    if key in TABLE and not (modname or "").startswith("os."):
         return VFunc("builtin", "%s.%s" % key, impl=TABLE[key])
     if key[0] == "collections" and attr == "OrderedDict":
         return VClass("OrderedDict")
